@@ -411,7 +411,6 @@ func exactSignRule(p *core.Program, r *core.Report, rule string, exact *ssa.Func
 	r.Check(len(conv) == 0 && sign >= 1, rule, short(exact), p.Pos(exact.Pos()), true, fmt.Sprintf("sign taken by %d Sign/Cmp call(s), no narrowing conversion", sign), fmt.Sprintf("the exact determinant is narrowed by %v (Sign/Cmp calls: %d): a tiny non-zero determinant rounds to zero and reads as collinear", conv, sign))
 }
 
-
 // filterEpsilon finds the error bound of the filter: the float product one of whose factors is the relative error
 // coefficient - a package variable (returned as g) or a constant (returned as c) - and the other is not.
 func filterEpsilon(fn *ssa.Function) (errbound *ssa.BinOp, g *ssa.Global, c *ssa.Const) {
